@@ -146,14 +146,34 @@ def rule_update_table(ctx, res):
     def subj(name):
         return lambda call: is_param(root_of(strip_transparent(call[2][0])), name) and not field_chain(strip_transparent(call[2][0]))
 
+    order = status_values(ctx)
+    PAIRS = [(a, b) for a in STATUS for b in STATUS]
+
+    def which(t):
+        t = strip_transparent(t)
+        if isinstance(t, tuple) and t[0] == 'call' and t[1] == 'node::Node::status':
+            r = strip_transparent(t[2][0])
+            if not field_chain(r):
+                if is_param(root_of(r), 'self'):
+                    return 'S'
+                if is_param(root_of(r), 'other'):
+                    return 'O'
+        return None
+
     def classify(lit, c):
         s = status_atom(ctx, lit, subj('self'))
         if s is not None:
-            return ('S', s)
+            return ('SO', {p for p in PAIRS if p[0] in s})
         s = status_atom(ctx, lit, subj('other'))
         if s is not None:
-            return ('O', s)
+            return ('SO', {p for p in PAIRS if p[1] in s})
         rel, a, b, truth = lit
+        # comparison between the two statuses (derived order)
+        if rel in ('lt', 'eq') and which(a) and which(b) and which(a) != which(b):
+            def val(p, w):
+                return order[p[0] if w == 'S' else p[1]]
+            sel = {p for p in PAIRS if ((val(p, which(a)) < val(p, which(b))) if rel == 'lt' else (val(p, which(a)) == val(p, which(b)))) == truth}
+            return ('SO', sel)
         if rel == 'eq' and {tuple(field_chain(a)), tuple(field_chain(b))} == {('handle',)}:
             return ('same_handle', truth)
         raise Lost('Node::update: unrecognised condition %s %s' % (rel, fmt(a)))
@@ -187,14 +207,14 @@ def rule_update_table(ctx, res):
     res.check(guarded and tab.rows, 'DOM', 'node::Node::update', 'every returning path passed assert_eq!(self.handle, other.handle)', site=body.span)
 
     def expected(v):
-        s, o = v['S'], v['O']
+        s, o = v['SO']
         if s == 'Good' and o == 'Good':
             return 'merge'      # last_response := other's, strikes := 0, rest kept
         if (s, o) in (('Questionable', 'Good'), ('Bad', 'Good'), ('Bad', 'Questionable')):
             return 'replace'
         return 'keep'
 
-    bad, n = tab.compare({'S': list(STATUS), 'O': list(STATUS), 'same_handle': [True]}, expected)
+    bad, n = tab.compare({'SO': PAIRS, 'same_handle': [True]}, expected)
     res.paths += n
     res.check(not bad, 'TABLE', 'node::Node::update', 'update table over (own status, offered status) equals the prescribed 3x3 table',
               site=body.span, detail='; '.join('%s -> got %s want %s' % (v, g, e) for v, g, e in bad[:4]))
@@ -425,6 +445,7 @@ def rule_queries_mark_only(ctx, res):
 
 
 def run(ctx, res):
+    common.rule_closed_world(ctx, res)
     rule_consts(ctx, res)
     rule_status_table(ctx, res)
     rule_update_table(ctx, res)
